@@ -102,6 +102,11 @@ CLAIMS = {
         text="For each generated base case (small trees and 150-300-file fan-out, capacities 0/1/32, fresh and dirty destinations, notify on/off) one fault-free run counts the operations; then every position k is run for each kind: stream broken at the k-th SendMsg/RecvMsg of either endpoint, either call's context cancelled after its k-th packet, walk error at entry k, read error after j bytes of file k, ContentHasher/NotifyHashed error at call k. The harness tears an endpoint down only by the fault, its context, or the peer's return; a run is 'stuck' iff every goroutine with an fsutil frame is blocked with an unchanged stack (no wall-clock verdict). Checked per run: both calls return, no fsutil goroutine survives, Receive==nil implies destination equals source, Send==nil implies the receiver's FIN reached it, and a follow-up fault-free transfer into the leftovers succeeds and converges. Exhaustive in k for small cases, strided for large fan-out in the quick tier; schedules are perturbed, not enumerated.",
         note="SIGKILL of a receiver sub-process is not exercised in this round. Liveness by quiescence cannot see a livelock (no retry loops exist). The thorough tier also runs half of the shards under the race detector.",
         ref="4 C04"),
+    "C08": dict(
+        technique="metamorphic testing over schedules: one case executed under M harness-steered schedules (capacities, GOMAXPROCS, seeded per-operation delays, read gates) with outcome equality as the oracle; in-flight counters on the harness stream; Go race detector build on half of the shards",
+        text="A fixed source/destination pair with 30-120 multi-chunk files is transferred under 6 (quick) or 24 (thorough) drawn schedules: stream capacity 0-64, GOMAXPROCS 1-16, deterministic per-operation disturbances before and after every stream call, before every source read and inside the hasher/notify callbacks, and a gate that releases parked readers in a drawn order. The canonical outcome (destination snapshot, content-request set, notification set with digests, hard-link exception removed) must be identical across schedules; the raw endpoints handed to Send/Receive count in-flight calls and must never see two SendMsg or two RecvMsg at once; odd shards run under the race detector. Sampled schedules, no proof.",
+        note="Go offers no deterministic scheduler: interleavings inside one end that never touch the stream, a read or a callback are only perturbed. Absence of data races is established for the explored executions only.",
+        ref="4 C08"),
 }
 
 NOT_YET = "check not built yet in this round (planned, see DESIGN.md section 9)"
